@@ -918,7 +918,7 @@ class TypeAnnotator:
         return expression
 
     def _annotate_bracket(self, expression: exp.Bracket) -> exp.Bracket:
-        bracket_arg = expression.expressions[0]
+        bracket_arg = seq_get(expression.expressions, 0)
         this = expression.this
 
         if isinstance(bracket_arg, exp.Slice):
